@@ -877,7 +877,10 @@ def packULong(value):
 
 
 def packUInt24(value):
-    assert 0 <= value < 0x1000000, value
+    if not 0 <= value < 0x1000000:
+        # mirror what struct.pack does for the 16- and 32-bit packers; an assert
+        # would vanish under -O and the [1:] below would silently drop the high byte
+        raise struct.error("24-bit format requires 0 <= number <= 16777215: %r" % value)
     return struct.pack(">I", value)[1:]
 
 
